@@ -140,6 +140,8 @@ pub const CASE_TIMEOUT_S: u64 = 30;
 // scratch directories
 
 static COUNTER: AtomicU64 = AtomicU64::new(0);
+/// the worker is removing its scratch directory: nothing may be created in it any more
+static SHUTTING_DOWN: std::sync::atomic::AtomicBool = std::sync::atomic::AtomicBool::new(false);
 
 fn tmp_base() -> PathBuf {
     match std::env::var("VERIF_TMP") {
@@ -153,7 +155,9 @@ impl Scratch {
     fn new_in(parent: &Path, tag: &str) -> Scratch {
         let n = COUNTER.fetch_add(1, Ordering::Relaxed);
         let p = parent.join(format!("{}{}", tag, n));
-        let _ = std::fs::create_dir_all(&p);
+        if !SHUTTING_DOWN.load(Ordering::Relaxed) {
+            let _ = std::fs::create_dir_all(&p);
+        }
         Scratch(p)
     }
     fn path(&self, name: &str) -> String {
@@ -291,7 +295,11 @@ pub fn base_docs(hist: &History, mode: &Mode, work: &Path, out: &mut Outcome) ->
         Mode::Csv | Mode::DatasetFile { csv: true } => {
             let dir = Scratch::new_in(work, "base");
             let f = dir.path("x.store.stam.csv");
-            match catch(|| store.to_file(&f)) {
+            // (some of the data set files are written relative to the working directory)
+            let _ = std::env::set_current_dir(&dir.0);
+            let written = catch(|| store.to_file(&f));
+            let _ = std::env::set_current_dir(work);
+            match written {
                 Ok(Ok(())) => {}
                 _ => return foreign(out),
             }
@@ -396,10 +404,14 @@ enum Entry {
 }
 
 static PHASE: std::sync::Mutex<Option<(String, std::time::Instant)>> = std::sync::Mutex::new(None);
+/// set by the worker only: phase markers go to its stderr log
+static PHASE_LOG: std::sync::atomic::AtomicBool = std::sync::atomic::AtomicBool::new(false);
 
 fn phase(p: &str) {
     // marker for the parent process: which phase was running when the worker died
-    eprintln!("C19-PHASE {}", p);
+    if PHASE_LOG.load(Ordering::Relaxed) {
+        eprintln!("C19-PHASE {}", p);
+    }
     if let Ok(mut g) = PHASE.lock() {
         *g = Some((p.to_string(), std::time::Instant::now()));
     }
@@ -425,6 +437,10 @@ pub const LOAD_STACK: usize = if cfg!(fuzzing) { 16 << 20 } else { 2 << 20 };
 
 /// run a load on its own thread with the stack of a default Rust thread
 fn on_load_thread<T: Send>(f: impl FnOnce() -> T + Send) -> Result<T, PanicInfo> {
+    if cfg!(fuzzing) {
+        // in a libFuzzer process the sanitizer watches the stack; a thread per execution would dominate the cost
+        return catch(f);
+    }
     std::thread::scope(|s| {
         let h = std::thread::Builder::new().name("c19-load".into()).stack_size(LOAD_STACK).spawn_scoped(s, || catch(f));
         match h {
@@ -999,8 +1015,19 @@ fn run_doc(hist: &History, mode: &Mode, muts: &[Mutation], work: &Path) -> Outco
     out
 }
 
-/// run a case in this process (called by the worker and by the fuzz targets)
+/// run a case in this process (called by the worker and by the fuzz targets). The process's working directory
+/// is a fresh directory for the duration of the case: the library resolves some file names against it (when a
+/// configuration has no workdir), and neither may a case leave files behind nor may it see those of an earlier one.
 pub fn run_local(case: &Case, work: &Path) -> Outcome {
+    let case_dir = Scratch::new_in(work, "case");
+    let _ = std::env::set_current_dir(&case_dir.0);
+    let out = run_local_in(case, &case_dir.0);
+    let _ = std::env::set_current_dir(work);
+    drop(case_dir);
+    out
+}
+
+fn run_local_in(case: &Case, work: &Path) -> Outcome {
     let mut out = Outcome::new();
     phase("prepare");
     match case {
@@ -1200,6 +1227,7 @@ pub fn worker_main(dir: &str) -> i32 {
     install_panic_hook();
     raise_nofile();
     alloc::set_hard_cap(HARD_CAP);
+    PHASE_LOG.store(true, Ordering::Relaxed);
     let work = PathBuf::from(dir);
     let (tx_case, rx_case) = std::sync::mpsc::channel::<String>();
     let (tx_res, rx_res) = std::sync::mpsc::channel::<String>();
@@ -1232,6 +1260,7 @@ pub fn worker_main(dir: &str) -> i32 {
             }
         });
     if runner.is_err() {
+        let _ = std::fs::remove_dir_all(&work);
         return 4;
     }
     let mut reader = BufReader::new(input);
@@ -1286,6 +1315,15 @@ pub fn worker_main(dir: &str) -> i32 {
             }
         }
     }
+    // let the case that is still running (if any) finish, so that it cannot re-create files after the clean-up
+    drop(tx_case);
+    if let Ok(runner) = runner {
+        let t0 = std::time::Instant::now();
+        while !runner.is_finished() && t0.elapsed().as_millis() < 3000 {
+            std::thread::sleep(std::time::Duration::from_millis(10));
+        }
+    }
+    SHUTTING_DOWN.store(true, Ordering::Relaxed);
     let _ = std::fs::remove_dir_all(&work);
     code
 }
@@ -1759,7 +1797,7 @@ impl Property for C19 {
         ]
     }
     fn cases(&self, tier: Tier) -> u64 {
-        tier.pick(24_000, 480_000)
+        tier.pick(80_000, 1_600_000)
     }
     fn strategy(&self, tier: Tier) -> BoxedStrategy<Case> {
         case_strategy(tier)
@@ -1814,11 +1852,26 @@ struct FuzzState {
 
 static FUZZ: std::sync::OnceLock<FuzzState> = std::sync::OnceLock::new();
 
+extern "C" fn fuzz_cleanup() {
+    if let Some(st) = FUZZ.get() {
+        let _ = std::env::set_current_dir("/");
+        let _ = std::fs::remove_dir_all(&st.work.0);
+    }
+}
+
+extern "C" {
+    fn atexit(cb: extern "C" fn()) -> i32;
+}
+
 pub fn fuzz_init() {
     install_panic_hook();
+    unsafe {
+        atexit(fuzz_cleanup);
+    }
     // nothing the library does with "-" may block on the terminal
     let _ = detach_stdio();
     raise_nofile();
+    alloc::set_hard_cap(HARD_CAP);
     FUZZ.get_or_init(|| FuzzState {
         known: load_findings("C19"),
         work: Scratch::new_in(&tmp_base(), &format!("stamverif-c19-fuzz-{}-", std::process::id())),
@@ -1859,6 +1912,11 @@ pub fn emit_corpus(dir: &Path, n: usize) -> Result<usize, String> {
     use proptest::test_runner::{Config as PConfig, RngAlgorithm, TestRng, TestRunner};
     install_panic_hook();
     let work = Scratch::new_in(&tmp_base(), &format!("stamverif-c19-emit-{}-", std::process::id()));
+    let dir = &std::fs::canonicalize(dir).unwrap_or_else(|_| {
+        let _ = std::fs::create_dir_all(dir);
+        std::fs::canonicalize(dir).unwrap_or(dir.to_path_buf())
+    });
+    let _ = std::env::set_current_dir(&work.0);
     let mut runner = TestRunner::new_with_rng(PConfig::default(), TestRng::from_seed(RngAlgorithm::ChaCha, &[19u8; 32]));
     let strat = history_strategy(hist_cfg(Tier::Quick));
     let mut written = 0;
@@ -1956,6 +2014,7 @@ pub fn show(replay: &Path) -> Result<String, String> {
     let v: serde_json::Value = serde_json::from_str(&text).map_err(|e| e.to_string())?;
     let case: Case = serde_json::from_value(v.get("case").cloned().unwrap_or(v)).map_err(|e| e.to_string())?;
     let work = Scratch::new_in(&tmp_base(), &format!("stamverif-c19-show-{}-", std::process::id()));
+    let _ = std::env::set_current_dir(&work.0);
     match &case {
         Case::Doc { hist, mode, muts } => {
             let mut out = Outcome::new();
